@@ -12,6 +12,7 @@ import math
 import subprocess
 from vlib.common import *
 from props import wrappers
+from vlib import auxprops
 
 IMPORTS = ("From Coquelicot Require Import Coquelicot.\n"
            "From SpdVerif Require Import Base.Rx Gen.Efficiencies Spec.Overlap Proofs.C08_efficiency Proofs.C08_overlap Proofs.C08_tac.\n")
@@ -578,11 +579,14 @@ def run(ctx):
             r = replay(ctx, binp)
         if r is not None:
             return r
-    msgs, spans = regen(ctx, ["spectrum", "efficiencies", "pm_integrand", "pm_singles", "wrappers"])
+    msgs, spans = regen(ctx, ["spectrum", "efficiencies", "pm_integrand", "pm_singles"])
     ctx.cov["translated_spans"] = {k: v for k, v in spans.items() if k.startswith(("spdc::efficiencies", "jsa::joint_spectrum", "phasematch::normalization"))}
     for m in msgs:
-        ctx.proof_failures.append(("Gen/Wrappers.v" if m.rstrip().endswith("[generator wrappers]") else "Gen/Efficiencies.v", "translator", m))
+        ctx.proof_failures.append(("Gen/Efficiencies.v", "translator", m))
     proved = (not msgs) and prove(ctx, "C08", extra_targets=["Proofs/C08_tac.vo"] + ([] if ctx.tier == "quick" else ["Proofs/PMCaseTac.vo"]))
+    # auxiliary composition (Props/C08_aux.v): the forwarding chain SPDC::efficiencies -> ... -> efficiencies_from_counts; accounted for separately
+    auxprops.prove_aux(ctx, "C08", ["wrapbase", "wrap_SPDC_efficiencies", "wrap_efficiencies", "wrap_SPDC_counts_coincidences",
+                                    "wrap_SPDC_counts_singles_signal", "wrap_SPDC_counts_singles_idler"])
     if proved:   # the refuted lemmas live outside the property's obligations: a failure here is only noted
         okf, _, _ = coq_build(ctx, ["Findings/C08_singles_branch.vo"])
         if not okf:
